@@ -263,114 +263,18 @@ func c10Scope(ctx *core.Ctx) []*ssa.Function {
 
 func C10(ctx *core.Ctx, r *core.Report) {
 	r.Explanation = "Integer-width reasoning over every numeric conversion in the conversion front end (package val, node/value.go): a conversion whose source range is not contained in the destination range must be dominated by comparisons that confine the operand to the destination type's limits (and, for float→integer, by an integrality test), or take its operand from strconv.ParseInt/ParseUint with a matching bit size. Also: val.Conv's dispatch never yields a zero value with a nil error, and the value of a failed call is not used. Not decided: string formats accepted, union member choice, enum/bits/identityref lookup."
-	sizes := ctx.Sizes
 	fns := c10Scope(ctx)
 	r.Count("functions_in_scope", len(fns))
-	nConv, nSafe := 0, 0
-	for _, f := range fns {
-		fname := core.FnName(f)
-		core.Instrs(f, func(b *ssa.BasicBlock, in ssa.Instruction) {
-			cv, ok := in.(*ssa.Convert)
-			if !ok {
-				return
-			}
-			sk, ok1 := numKindOf(cv.X.Type(), sizes)
-			dk, ok2 := numKindOf(cv.Type(), sizes)
-			if !ok1 || !ok2 {
-				return
-			}
-			if _, isConst := cv.X.(*ssa.Const); isConst {
-				return
-			}
-			nConv++
-			if contains(dk, sk) {
-				nSafe++
-				return
-			}
-			key := fmt.Sprintf("%s/%s→%s", fname, core.TypeName(cv.X.Type()), core.TypeName(cv.Type()))
-			pos := ctx.Pos(cv.Pos())
-			// strconv.ParseInt/ParseUint(x, base, bitSize) with bitSize ≤ dst
-			if ex, ok := cv.X.(*ssa.Extract); ok && ex.Index == 0 {
-				if c, ok := ex.Tuple.(*ssa.Call); ok {
-					if cal := core.StaticCallee(c); cal != nil {
-						n := core.FnName(cal)
-						if (n == "strconv.ParseInt" && dk.signed || n == "strconv.ParseUint" && !dk.signed) && !dk.float && len(c.Common().Args) == 3 {
-							if bs, ok := core.ConstInt(c.Common().Args[2]); ok && int(bs) <= dk.bits && bs > 0 {
-								r.Ob("lossy-convert", key, pos, true, fmt.Sprintf("operand is %s with bitSize %d", n, bs))
-								return
-							}
-						}
-					}
-				}
-			}
-			if dk.float {
-				// integer wider than the mantissa, or float64→float32
-				r.Ob("lossy-convert", key, pos, false, fmt.Sprintf("%s → %s is not exact for all values (mantissa too short) and nothing bounds the operand", sk, dk))
-				return
-			}
-			lo, hi, integral := guardsOn(b, cv.X, sizes)
-			dlo, dhi := dk.limits()
-			var problems []string
-			// lower bound
-			srcLoOK := !sk.float && !sk.signed // unsigned sources are ≥ 0 ≥ dlo
-			if !srcLoOK {
-				if !sk.float {
-					slo, _ := sk.limits()
-					if slo.Cmp(dlo) >= 0 {
-						srcLoOK = true
-					}
-				}
-			}
-			if !srcLoOK {
-				switch {
-				case lo == nil:
-					problems = append(problems, "no lower bound")
-				case lo.v.Cmp(dlo) < 0 && !(lo.v.Cmp(new(big.Float).Sub(dlo, big.NewFloat(1))) == 0 && !lo.incl):
-					problems = append(problems, fmt.Sprintf("lower bound %s is below %s's minimum %s", lo.v.Text('f', 0), dk, dlo.Text('f', 0)))
-				}
-			}
-			srcHiOK := false
-			if !sk.float {
-				_, shi := sk.limits()
-				if shi.Cmp(dhi) <= 0 {
-					srcHiOK = true
-				}
-			}
-			if !srcHiOK {
-				lim := new(big.Float).Add(dhi, big.NewFloat(1))
-				switch {
-				case hi == nil:
-					problems = append(problems, "no upper bound")
-				case hi.incl && hi.v.Cmp(dhi) > 0:
-					problems = append(problems, fmt.Sprintf("upper bound %s exceeds %s's maximum %s", hi.v.Text('f', 0), dk, dhi.Text('f', 0)))
-				case !hi.incl && hi.v.Cmp(lim) > 0:
-					problems = append(problems, fmt.Sprintf("upper bound <%s exceeds %s's maximum %s", hi.v.Text('f', 0), dk, dhi.Text('f', 0)))
-				}
-			}
-			if sk.float && !integral {
-				problems = append(problems, "no integrality test (x == math.Trunc(x)): fractions are truncated")
-			}
-			ok = len(problems) == 0
-			if reason, t := c10Triage[key]; t && !ok {
-				r.Ob("lossy-convert", key, pos, true, "triaged: "+reason)
-				return
-			}
-			msg := "bounded by dominating guards within the destination range"
-			if !ok {
-				msg = fmt.Sprintf("%s → %s can change the number: %s", sk, dk, strings.Join(problems, "; "))
-			}
-			r.Ob("lossy-convert", key, pos, ok, msg)
-			if ok {
-				r.Sample("lossy-convert %s at %s: %s", key, pos, msg)
-			}
-		})
-	}
+	nConv, nSafe := lossyConversions(ctx, r, fns, c10Triage)
 	r.Count("numeric_conversions", nConv)
 	r.Count("numeric_conversions_safe_by_type", nSafe)
 	r.Floor("lossy-convert(all conversions)", nConv, 60)
 
 	c10ConvTotal(ctx, r)
 	c10FailedResultUsed(ctx, r)
+	parseBaseTen(ctx, r, fns, 3)
+	loopErrorTested(ctx, r, fns, 5)
+	floatTextExact(ctx, r, fns, 1)
 }
 
 // c10ConvTotal: every return of val.Conv (and node.NewValue) returns a
@@ -511,4 +415,115 @@ func c10FailedResultUsed(ctx *core.Ctx, r *core.Report) {
 // conversions that are exact by a domain invariant the width analysis cannot see.
 var c10Triage = map[string]string{
 	"node.toEnum/uint→int": "the operand is the Value() of val.Conv(FmtUInt32, …): a Go uint that holds a uint32 by construction; exact in a 64-bit int (reported on GOARCH=386 in the thorough tier, where int is 32 bits)",
+}
+
+// lossyConversions applies the integer-width rule to every numeric conversion
+// of the given functions and returns how many it saw and how many are safe by
+// type alone.
+func lossyConversions(ctx *core.Ctx, r *core.Report, fns []*ssa.Function, triage map[string]string) (int, int) {
+	sizes := ctx.Sizes
+	nConv, nSafe := 0, 0
+	for _, f := range fns {
+		fname := core.FnName(f)
+		core.Instrs(f, func(b *ssa.BasicBlock, in ssa.Instruction) {
+			cv, ok := in.(*ssa.Convert)
+			if !ok {
+				return
+			}
+			sk, ok1 := numKindOf(cv.X.Type(), sizes)
+			dk, ok2 := numKindOf(cv.Type(), sizes)
+			if !ok1 || !ok2 {
+				return
+			}
+			if _, isConst := cv.X.(*ssa.Const); isConst {
+				return
+			}
+			nConv++
+			if contains(dk, sk) {
+				nSafe++
+				return
+			}
+			key := fmt.Sprintf("%s/%s→%s", fname, core.TypeName(cv.X.Type()), core.TypeName(cv.Type()))
+			pos := ctx.Pos(cv.Pos())
+			// strconv.ParseInt/ParseUint(x, base, bitSize) with bitSize ≤ dst
+			if ex, ok := cv.X.(*ssa.Extract); ok && ex.Index == 0 {
+				if c, ok := ex.Tuple.(*ssa.Call); ok {
+					if cal := core.StaticCallee(c); cal != nil {
+						n := core.FnName(cal)
+						if (n == "strconv.ParseInt" && dk.signed || n == "strconv.ParseUint" && !dk.signed) && !dk.float && len(c.Common().Args) == 3 {
+							if bs, ok := core.ConstInt(c.Common().Args[2]); ok && int(bs) <= dk.bits && bs > 0 {
+								r.Ob("lossy-convert", key, pos, true, fmt.Sprintf("operand is %s with bitSize %d", n, bs))
+								return
+							}
+						}
+					}
+				}
+			}
+			if dk.float {
+				// integer wider than the mantissa, or float64→float32
+				if reason, t := triage[key]; t {
+					r.Ob("lossy-convert", key, pos, true, "triaged: "+reason)
+					return
+				}
+				r.Ob("lossy-convert", key, pos, false, fmt.Sprintf("%s → %s is not exact for all values (mantissa too short) and nothing bounds the operand", sk, dk))
+				return
+			}
+			lo, hi, integral := guardsOn(b, cv.X, sizes)
+			dlo, dhi := dk.limits()
+			var problems []string
+			// lower bound
+			srcLoOK := !sk.float && !sk.signed // unsigned sources are ≥ 0 ≥ dlo
+			if !srcLoOK {
+				if !sk.float {
+					slo, _ := sk.limits()
+					if slo.Cmp(dlo) >= 0 {
+						srcLoOK = true
+					}
+				}
+			}
+			if !srcLoOK {
+				switch {
+				case lo == nil:
+					problems = append(problems, "no lower bound")
+				case lo.v.Cmp(dlo) < 0 && !(lo.v.Cmp(new(big.Float).Sub(dlo, big.NewFloat(1))) == 0 && !lo.incl):
+					problems = append(problems, fmt.Sprintf("lower bound %s is below %s's minimum %s", lo.v.Text('f', 0), dk, dlo.Text('f', 0)))
+				}
+			}
+			srcHiOK := false
+			if !sk.float {
+				_, shi := sk.limits()
+				if shi.Cmp(dhi) <= 0 {
+					srcHiOK = true
+				}
+			}
+			if !srcHiOK {
+				lim := new(big.Float).Add(dhi, big.NewFloat(1))
+				switch {
+				case hi == nil:
+					problems = append(problems, "no upper bound")
+				case hi.incl && hi.v.Cmp(dhi) > 0:
+					problems = append(problems, fmt.Sprintf("upper bound %s exceeds %s's maximum %s", hi.v.Text('f', 0), dk, dhi.Text('f', 0)))
+				case !hi.incl && hi.v.Cmp(lim) > 0:
+					problems = append(problems, fmt.Sprintf("upper bound <%s exceeds %s's maximum %s", hi.v.Text('f', 0), dk, dhi.Text('f', 0)))
+				}
+			}
+			if sk.float && !integral {
+				problems = append(problems, "no integrality test (x == math.Trunc(x)): fractions are truncated")
+			}
+			ok = len(problems) == 0
+			if reason, t := triage[key]; t && !ok {
+				r.Ob("lossy-convert", key, pos, true, "triaged: "+reason)
+				return
+			}
+			msg := "bounded by dominating guards within the destination range"
+			if !ok {
+				msg = fmt.Sprintf("%s → %s can change the number: %s", sk, dk, strings.Join(problems, "; "))
+			}
+			r.Ob("lossy-convert", key, pos, ok, msg)
+			if ok {
+				r.Sample("lossy-convert %s at %s: %s", key, pos, msg)
+			}
+		})
+	}
+	return nConv, nSafe
 }
